@@ -93,9 +93,14 @@ func parseDocument(document string, eventReceiver events.DataEventReceiver, rule
 }
 
 func checkNestingDepth(stream *antlr.CommonTokenStream, maxDepth uint64) error {
-	stream.Fill()
 	depth := uint64(0)
-	for _, token := range stream.GetAllTokens() {
+	// (token by token, so that a document that is too deep is refused without
+	// lexing the rest of it)
+	for i := 0; stream.Sync(i); i++ {
+		token := stream.Get(i)
+		if token.GetTokenType() == antlr.TokenEOF {
+			break
+		}
 		switch token.GetTokenType() {
 		case parser.CTELexerLIST_BEGIN, parser.CTELexerMAP_BEGIN, parser.CTELexerNODE_BEGIN, parser.CTELexerEDGE_BEGIN,
 			parser.CTELexerRECORD_TYPE_BEGIN, parser.CTELexerRECORD_BEGIN:
